@@ -29,7 +29,7 @@ RULE = ('cases: (a) exhaustive: n in 1..N systems x priority pattern (distinct /
         '>=1 system ordered after the completer was due in the completing step; distinct by (priorities, position, timestep, tail).')
 ASSUMPTIONS = ['the clock value right after the completing step is not prescribed (the unit test counts that step); it must be frozen afterwards',
                'add_system/remove_system after completion may change the registry; only advance requests must change nothing']
-FLOORS = {'quick': {'system_faults_caught': 116, 'completer_raised_after_complete': 39, 'completions_after_system_fault': 83, 'models_with_quiet_logger': 308, 'completions_mid_step': 910, 'completions_outside': 75, 'later_system_due_in_completing_step': 500,
+FLOORS = {'quick': {'unrelated_model_steps_between_requests': 5332, 'system_faults_caught': 116, 'completer_raised_after_complete': 39, 'completions_after_system_fault': 83, 'models_with_quiet_logger': 308, 'completions_mid_step': 910, 'completions_outside': 75, 'later_system_due_in_completing_step': 500,
                     'tail_execute': 2000, 'tail_execute_n': 2000, 'tail_execute_systems': 2000, 'tail_throw': 2000,
                     'model_complete_errors': 2000, 'tail_add': 1000, 'tail_remove': 500, 'batch_driver_runs': 20,
                     'pos_first': 100, 'pos_middle': 100, 'pos_last': 100, 'multi_step_past_completion': 200, 'long_tails': 30, 'long_requests_after_completion': 1000,
@@ -77,9 +77,18 @@ def tail(ctx, rng, core, Logger, model, log, universe=()):
     n_log = len(log)
     extra_ids = itertools.count()
     kinds = []
+    # a second, unrelated model is alive and keeps running: it is advanced right after our completion and between our requests
+    other, olog = core.Model(), []
+    other.systems.add_system(Logger('s0', other, olog))
+    other.execute()
     for _ in range(rng.randint(5, 30)):
         k = rng.choice(['execute', 'execute_n', 'execute_systems', 'throw', 'throw', 'add', 'remove', 'complete'])
         kinds.append(k)
+        if rng.random() < 0.4:
+            n_o = len(olog)
+            other.execute()
+            ctx.count('unrelated_model_steps_between_requests')
+            check(len(olog) == n_o + 1 and other.is_running(), 'the unrelated running model did not advance normally', tail=kinds)
         if k in ('add', 'remove', 'complete'):
             if k == 'add':
                 model.systems.add_system(Logger(f'late{next(extra_ids)}', model, log, priority=rng.randint(-3, 3)))
